@@ -12,12 +12,21 @@ const BAD_UTF8: &[&[u8]] = &[&[0xff], &[0xc0, 0x80], &[0xed, 0xa0, 0x80], &[0x41
 struct Gen<'a> {
     rng: &'a mut Rng,
     next_uuid: u128,
+    dup_uuids: bool,
     titles_seen: Vec<Vec<u8>>,
     n_nodes: u32,
 }
 
 impl<'a> Gen<'a> {
     fn uuid(&mut self) -> Uuid {
+        // mostly fresh; sometimes the identifier of an earlier node (a subtree attached twice, a copied
+        // entry) or nil (what KDB files and `Default` carry): traversal and lookup do not depend on it
+        if self.dup_uuids && self.next_uuid > 0 && self.rng.chance(1, 6) {
+            return Uuid::from_u128(1 + self.rng.below(self.next_uuid as u64) as u128);
+        }
+        if self.dup_uuids && self.rng.chance(1, 10) {
+            return Uuid::nil();
+        }
         self.next_uuid += 1;
         Uuid::from_u128(self.next_uuid)
     }
@@ -129,7 +138,8 @@ pub fn run(args: &Args) {
         let depth = rng.range(1, 6) as u32;
         let fan = rng.range(1, 6);
         let (mut root, tree_s, titles) = {
-            let mut g = Gen { rng, next_uuid: 0, titles_seen: Vec::new(), n_nodes: 0 };
+            let dup_uuids = rng.chance(1, 3);
+            let mut g = Gen { rng, next_uuid: 0, dup_uuids, titles_seen: Vec::new(), n_nodes: 0 };
             let (root, s) = g.group(depth, fan);
             (root, s, g.titles_seen)
         };
@@ -196,7 +206,7 @@ pub fn run(args: &Args) {
     write_report(
         args,
         &agg,
-        "random trees (depth 1..6, fan-out 1..6, titles from a 9-word pool incl. empty/blank/non-ASCII, protected titles with invalid UTF-8, byte titles, missing titles) x 20 paths walked along existing titles with foreign steps; non-trivial = at least 4 nodes and at least one non-empty path that resolves; distinct = distinct (tree, paths) text",
+        "random trees (depth 1..6, fan-out 1..6, in a third of the cases with repeated and nil UUIDs, titles from a 9-word pool incl. empty/blank/non-ASCII, protected titles with invalid UTF-8, byte titles, missing titles) x 20 paths walked along existing titles with foreign steps; non-trivial = at least 4 nodes and at least one non-empty path that resolves; distinct = distinct (tree, paths) text",
         serde_json::json!({}),
     );
 }
